@@ -1239,7 +1239,12 @@ impl ConfigState {
             tags: front.tags.clone(),
         };
         let before = tcp_frontends.len();
-        if tcp_frontends.contains(&tcp_frontend) {
+        // one frontend per (cluster, address): removal and diff address a TCP
+        // frontend by its address, whatever its tags
+        if tcp_frontends
+            .iter()
+            .any(|front| front.address == tcp_frontend.address)
+        {
             debug_assert_eq!(
                 tcp_frontends.len(),
                 before,
@@ -1306,7 +1311,12 @@ impl ConfigState {
             address: front.address.into(),
             tags: front.tags.clone(),
         };
-        if udp_frontends.contains(&udp_frontend) {
+        // one frontend per (cluster, address): removal and diff address a UDP
+        // frontend by its address, whatever its tags
+        if udp_frontends
+            .iter()
+            .any(|front| front.address == udp_frontend.address)
+        {
             return Err(StateError::Exists {
                 kind: ObjectKind::UdpFrontend,
                 id: format!("{udp_frontend:?}"),
